@@ -574,6 +574,128 @@ def rule_AI13(rep, prog):
             rep.unknown(rid, "_dispatch_data_apply: the applier's buffer is not derived from _dispatch_data_map_direct at %s" % c.loc)
 
 
+def rule_SB15(rep, prog):
+    rid = rep.rule("C13-SB15", "copy_region hands back the object itself as the region only when the requested record IS the whole object: the `reuse this object` "
+                   "shortcut of _dispatch_data_copy_region is taken under from == 0 and size EQUAL to the object's size (a record that is a proper prefix of its "
+                   "leaf must get a new object of the record's length, or the region would be larger than the data it belongs to)", floor=1)
+    fn = prog.fn("_dispatch_data_copy_region")
+    rep.saw(fn)
+    slots = {("i", st.d["ptr"]["base"][1]) for st in fn.all_insts() if st.op == "store" and tuple(st.ops[0][:2]) == ("a", 0) and st.d.get("ptr") and st.d["ptr"]["base"][0] == "i"}
+    def is_obj(o):
+        if tuple(o[:2]) == ("a", 0):
+            return True
+        l = fn.inst(o)
+        return l is not None and l.op == "load" and l.d.get("ptr") and tuple(l.d["ptr"]["base"][:2]) in slots
+    def size_eq(t, tv):
+        if t.op != "icmp" or t.d["pred"] not in ("eq", "ne") or tv != (t.d["pred"] == "eq"):
+            return False
+        for a, b in ((t.ops[0], t.ops[1]), (t.ops[1], t.ops[0])):
+            l = fn.inst(b)
+            if tuple(a[:2]) == ("a", 2) and l is not None and l.op == "load" and "size" in prog.fields(l) and is_obj(l.d["ptr"]["base"]):
+                return True
+        return False
+    def from_zero(t, tv):
+        if t.op != "icmp" or t.d["pred"] not in ("eq", "ne") or tv != (t.d["pred"] == "eq"):
+            return False
+        for a, b in ((t.ops[0], t.ops[1]), (t.ops[1], t.ops[0])):
+            if b[0] == "c" and b[1] == 0:
+                l = fn.inst(a)
+                if tuple(a[:2]) == ("a", 1) or (l is not None and l.op == "load" and not prog.fields(l) and l.d.get("ptr") and l.d["ptr"]["base"][0] == "i"):
+                    return True
+        return False
+    n = 0
+    for sel in fn.all_insts():
+        if sel.op != "select" or not (is_obj(sel.ops[1]) and sel.ops[2][0] == "n" or is_obj(sel.ops[2]) and sel.ops[1][0] == "n"):
+            continue
+        n += 1
+        want_true = is_obj(sel.ops[1])
+        cx = paths.dom_ctx(fn, sel)
+        c2 = paths.PathCtx(fn)
+        c2.learn(sel.ops[0], want_true)
+        truth = dict(cx.truth); truth.update(c2.truth)
+        ok = any(size_eq(fn.insts[i], tv) for i, tv in truth.items()) and any(from_zero(fn.insts[i], tv) for i, tv in truth.items())
+        rep.require(rid, ok, sel.loc, fn.name, "object-reused-for-a-smaller-record",
+                    "_dispatch_data_copy_region reuses the object itself as the region without having established from == 0 and size == the object's size: a record "
+                    "that is a proper prefix of its leaf returns the whole leaf - the region is bigger than the object it was copied from and contains bytes the "
+                    "object does not represent", sample={"site": sel.loc})
+    if n < 1:
+        # branch form: the object stored / merged as `reusable` under a branch
+        for ph in fn.all_insts():
+            if ph.op != "phi":
+                continue
+            for v, frm in ph.ops:
+                if is_obj(v) and any(w[0] == "n" for w, f2 in ph.ops):
+                    n += 1
+                    cx = paths.dom_ctx(fn, fn.blocks[frm].term)
+                    ok = any(size_eq(fn.insts[i], tv) for i, tv in cx.truth.items()) and any(from_zero(fn.insts[i], tv) for i, tv in cx.truth.items())
+                    rep.require(rid, ok, ph.loc, fn.name, "object-reused-for-a-smaller-record",
+                                "_dispatch_data_copy_region reuses the object itself as the region without having established from == 0 and size == the object's size",
+                                sample={"site": ph.loc})
+    if n < 1:
+        rep.unknown(rid, "_dispatch_data_copy_region: the whole-object shortcut was not found")
+
+
+def rule_OD14(rep, prog):
+    rid = rep.rule("C13-OD14", "a client destructor block that may be run later is a heap copy: every destructor handed to _dispatch_data_destroy_buffer (which submits it "
+                   "to a queue asynchronously) is the object's stored destructor, the result of _dispatch_Block_copy, or a sentinel - never the caller's block as "
+                   "passed in, which may live in a stack frame that is gone when the queue runs it", floor=2)
+    n = 0
+    for fn in prog.all_functions():
+        for c in calls_named(fn, "_dispatch_data_destroy_buffer"):
+            n += 1
+            rep.saw(fn)
+            a = c.ops[3]
+            i = fn.inst(a)
+            while i is not None and i.op == "bitcast":
+                a = i.ops[0]
+                i = fn.inst(a)
+            ok = False
+            if i is not None and i.op == "call" and i.callee == "_dispatch_Block_copy":
+                ok = True
+            elif i is not None and i.op == "load" and ("destructor" in prog.fields(i) or (i.d.get("ptr") and i.d["ptr"]["base"][0] == "g")):
+                ok = True
+            elif a[0] == "g":
+                ok = True
+            rep.require(rid, ok, c.loc, fn.name, "destructor-block-not-copied:%s" % fn.name,
+                        "%s hands _dispatch_data_destroy_buffer a destructor block that is neither a copy nor the object's stored one: the block is submitted to the "
+                        "destructor queue asynchronously and released there - a stack block (dispatch_data_create_f builds one) is run after its frame is gone, so the "
+                        "destructor does not run once with the buffer it was given" % fn.name, sample={"site": c.loc})
+    if n < 2:
+        rep.unknown(rid, "fewer than 2 calls of _dispatch_data_destroy_buffer found (%d)" % n)
+
+
+def rule_SB16(rep, prog):
+    rid = rep.rule("C13-SB16", "dispatch_data_create_map reports failure coherently: the contiguous copy made by _dispatch_data_flatten is tested for NULL before it is "
+                   "published, and on the paths where it is NULL the size written to *size_ptr is 0 (not the object's full length next to a NULL buffer)", floor=2)
+    fn = prog.fn("dispatch_data_create_map")
+    rep.saw(fn)
+    fl = calls_named(fn, "_dispatch_data_flatten")
+    sst = [st for st in fn.all_insts() if st.op == "store" and tuple(root_ptr(fn, st.d["ptr"]["base"])[:2]) == ("a", 2)]
+    if not fl or not sst:
+        rep.unknown(rid, "dispatch_data_create_map: flatten call / store through size_ptr not found")
+        return
+    n = 0
+    for c in fl:
+        for kind, inst, cx, path in paths.walk(fn, c, lambda i: i in sst):
+            if kind != "hit":
+                continue
+            n += 1
+            key = ("i", c.id)
+            if key in cx.isnull:
+                v = cx.value(inst.ops[0])
+                rep.require(rid, v == ("c", 0), inst.loc, fn.name, "null-buffer-with-nonzero-size",
+                            "on the path %s where the flattened copy is NULL dispatch_data_create_map writes a size that is not 0 to *size_ptr" % path, sample={"path": path})
+            elif key in cx.nonnull:
+                rep.ok(rid, "non-null path", {"path": path})
+            else:
+                rep.violation(rid, inst.loc, fn.name, "flattened-copy-published-unchecked",
+                              "dispatch_data_create_map publishes the result of _dispatch_data_flatten together with the object's full size without testing it for NULL "
+                              "(path %s): when the allocation of the contiguous copy fails the caller gets a NULL buffer and a non-zero size (and an empty object "
+                              "instead of NULL)" % path)
+    if n < 2:
+        rep.unknown(rid, "dispatch_data_create_map: fewer than 2 paths from the flatten call to the size report (%d)" % n)
+
+
 def rule_SB8(rep, prog):
     rid = rep.rule("C13-SB8", "record counting goes through the two helpers: the raw num_records field (0 for a leaf) is read only by _dispatch_data_leaf / "
                    "_dispatch_data_num_records; the public apply entry points both return early for an empty object; a one-record object's record length equals "
@@ -794,6 +916,12 @@ def run(rep, tier="quick", srcdir=None, only=None):
         rule_MW12(rep, prog)
     if want("C13-AI13"):
         rule_AI13(rep, prog)
+    if want("C13-SB15"):
+        rule_SB15(rep, prog)
+    if want("C13-OD14"):
+        rule_OD14(rep, prog)
+    if want("C13-SB16"):
+        rule_SB16(rep, prog)
 
 
 MANIFEST = {
